@@ -91,6 +91,12 @@ impl Terminal {
             self.history.list.clone(),
         )
     }
+    /// The new-line buffer (hidden while a history item is focused) and the byte cursor used to
+    /// split a submitted line into commands.
+    #[cfg(lace_verif)]
+    pub fn verif_buffer(&self) -> (String, usize) {
+        (self.buffer.clone(), self.cursor)
+    }
     /// The reader's `read()`: next command of the current line, reading a new line when needed.
     #[cfg(lace_verif)]
     pub fn verif_read(&mut self) -> Option<String> {
